@@ -69,6 +69,9 @@ def nontrivial(M):
 
 
 def coverage(rep, tag, cases, stats, counts, evaluations, keys_nontrivial, rule, samples, extra=None):
+    if not samples and cases:
+        m = cases[0].meta
+        samples = ["%s at prec %s (%s)" % (m.get("fn"), m.get("prec"), cases[0].name)]
     cov = {"evaluations": evaluations, "distinct_nontrivial": len(keys_nontrivial), "rule": rule,
            "samples": samples[:6],
            "certified_pass": counts["certified_pass"], "certified_fail": counts["certified_fail"],
